@@ -289,6 +289,14 @@ class RandGen:
         natives = {1: ["neg"], 2: ["sub", "add"], 3: ["sub3"]}.get(n, [])
         if natives and x < 0.15:
             return Sym(r.choice(natives))
+        if n == 1 and d > 0 and x < 0.04:     # {c -> applyto c {a -> (f c ..) a}}: the outer parameter in function position inside
+            names = self.names(2)
+            inner = dict(scope)
+            inner[names[0]] = "int"
+            inner2 = dict(inner)
+            inner2[names[1]] = "int"
+            fn = r.choice([Call("sub", Sym(names[0])), Call("sub3", Sym(names[0]), self.gen("int", inner2, 0))])
+            return Lam([names[0]], Call("applyto", Sym(names[0]), Lam([names[1]], Call(fn, Sym(names[1])))))
         if n == 1 and d > 0 and x < 0.08:     # a native partial application that holds a closure: applyto {c -> ..}
             names = self.names(1)
             inner = dict(scope)
